@@ -73,7 +73,37 @@ impl Oracle for C17 {
             if ok && !member_of_epoch {
                 viols.push(("non-member-of-the-epoch-decrypted", format!("n{node} was not a member of the state the file was encrypted in (epoch {}): {}", enc_epoch, rec.outcome)));
             }
-            if member_of_epoch && stored_valid {
+            // the imeta tag does not name the encrypting epoch: the library searches backwards
+            // from the announcing message's epoch, as far as the past-epoch window (never less
+            // than 5). An upload that took more commits than that is outside what it can find.
+            let window = (w.nodes[node].cfg.max_past_epochs as u64).max(5);
+            let lag_ok = l.epoch.saturating_sub(enc_epoch) <= window;
+            if member_of_epoch && stored_valid && !lag_ok {
+                w.probe("upload_took_more_epochs_than_the_window");
+            }
+            // "member of that epoch": the client stood in the very state the file was encrypted
+            // in (a file encrypted on a branch that lost a commit race, and announced after the
+            // rollback, was encrypted for the members of a state the others never entered)
+            let stood_there = !slow_upload || {
+                // ... and has not been rolled back out of it since: a state that lost a commit
+                // race is gone, with its exporter secret (stored per epoch number)
+                let mut on_chain = false;
+                for r in w.history.iter().filter(|r| r.step.node == node) {
+                    let pre = r.pre_state.get(&l.g);
+                    let post = r.post_state.get(&l.g);
+                    if pre.map(|s| s.1 == enc_state).unwrap_or(false) || post.map(|s| s.1 == enc_state).unwrap_or(false) {
+                        on_chain = true;
+                    }
+                    if r.rollback && post.map(|s| s.1 != enc_state && s.0 <= enc_epoch.max(1)).unwrap_or(false) {
+                        on_chain = false;
+                    }
+                    if r.rollback && pre.map(|s| s.1 == enc_state).unwrap_or(false) && post.map(|s| s.1 != enc_state).unwrap_or(true) {
+                        on_chain = false;
+                    }
+                }
+                on_chain
+            };
+            if member_of_epoch && stored_valid && lag_ok && stood_there {
                 if slow_upload {
                     w.probe("decrypt_attempt_of_a_file_announced_after_a_commit");
                 }
@@ -126,6 +156,48 @@ fn media_hook(gn: &mut Gen, w: &mut World) -> Option<Step> {
         let tamper = if gn.rng().chance(1, 2) { 0 } else { 1 + gn.rng().below(5) as u8 };
         let seed = gn.rng().next() as u32;
         return Some(gn.mk(w, node, 0, Op::GroupImageDownload { g, tamper, seed }));
+    }
+    // story: a file encrypted one commit before it is announced is downloaded many epochs later
+    if !w.groups.is_empty() && !w.probes.contains_key("slow_upload_then_many_epochs_story") && gn.rng().chance(1, 8) {
+        let g = 0usize;
+        let members: Vec<usize> = (0..w.nodes.len()).filter(|n| w.is_active_member(*n, g)).collect();
+        let admins: Vec<usize> = members.iter().copied().filter(|m| w.is_admin(*m, g)).collect();
+        let same = members.iter().map(|m| w.node_state(*m, g)).collect::<std::collections::BTreeSet<_>>().len() == 1;
+        if members.len() >= 2 && same && !admins.is_empty() && members.iter().all(|m| !w.has_pending_commit(*m, g)) {
+            let a = admins[0];
+            let x = *gn.rng().pick(&members)?;
+            let first = gn.mk(w, x, 0, Op::MediaEncrypt { g, tag: 7000 + gn.emitted as u32 });
+            let mut q: Vec<Step> = vec![];
+            let commit_round = |gn: &mut Gen, w: &mut World, q: &mut Vec<Step>, i: u32| {
+                let up = gn.mk(w, a, 1, Op::UpdateData { g, variant: (i % 2) as u8, arg: 900 + i });
+                let c = EvRef(up.id, 0);
+                q.push(up);
+                q.push(gn.mk(w, a, 0, Op::MergePending { g }));
+                for m in members.iter().filter(|m| **m != a) {
+                    q.push(gn.mk(w, *m, 0, Op::Deliver { ev: c }));
+                }
+            };
+            commit_round(gn, w, &mut q, 0);
+            let ann = gn.mk(w, x, 0, Op::SendMsg { g, tag: 7001 + gn.emitted as u32, ts_back: 0, kind: 9, imeta: false });
+            let msg = EvRef(ann.id, 0);
+            q.push(ann);
+            for m in members.iter().filter(|m| **m != x) {
+                q.push(gn.mk(w, *m, 0, Op::Deliver { ev: msg }));
+            }
+            let k = 5 + gn.rng().below(3) as u32;
+            for i in 1..=k {
+                commit_round(gn, w, &mut q, i);
+            }
+            for m in &members {
+                let seed = gn.rng().next() as u32;
+                q.push(gn.mk(w, *m, 0, Op::MediaDownload { msg, tamper: 0, seed }));
+            }
+            for st in q {
+                gn.queue.push_back(st);
+            }
+            w.probe("slow_upload_then_many_epochs_story");
+            return Some(first);
+        }
     }
     // slow upload: encrypt now, announce with the client's next message
     if !w.groups.is_empty() && gn.rng().chance(1, 5) {
